@@ -1,0 +1,142 @@
+//go:build verif
+// +build verif
+
+package index
+
+// Read-only inspection hooks for the verification harness in /verif.
+// Compiled only with -tags verif; they never change behaviour.
+
+import (
+	"bytes"
+	"sort"
+	"sync/atomic"
+
+	uuid "github.com/satori/go.uuid"
+)
+
+type VerifEdge struct {
+	To        uuid.UUID
+	Distance  float32
+	ToDeleted bool // the neighbour carries a tombstone
+	ToStored  bool // the neighbour is (the same object as) the vertex stored under its id
+}
+
+type VerifVertex struct {
+	Id       uuid.UUID
+	Level    int
+	Vector   []float32
+	Metadata map[string]string
+	NilMeta  bool
+	Deleted  bool
+	Edges    [][]VerifEdge // per level, sorted by neighbour id
+}
+
+type VerifConfig struct {
+	SearchAlgorithm  int
+	LevelMultiplier  float32
+	Ef               int
+	EfConstruction   int
+	M, MMax, MMax0   int
+	ExtendCandidates bool
+	KeepPruned       bool
+}
+
+type VerifDump struct {
+	HasEntry     bool
+	Entry        uuid.UUID
+	EntryDeleted bool
+	EntryStored  bool // the entry point is the vertex stored under its id
+	EntryLevel   int
+	Vertices     []VerifVertex // stored vertices, sorted by id
+	RawLen       uint64
+	RawBytesSize uint64
+	Dim          uint
+	Config       VerifConfig
+}
+
+func (this *Hnsw) verifStored(v *hnswVertex) bool {
+	m, mu := this.getVerticesShard(v.id)
+	mu.RLock()
+	defer mu.RUnlock()
+	return m[v.id] == v
+}
+
+func (this *Hnsw) VerifDump() *VerifDump {
+	d := &VerifDump{
+		RawLen:       atomic.LoadUint64(&this.len),
+		RawBytesSize: atomic.LoadUint64(&this.bytesSize),
+		Dim:          this.size,
+		Config: VerifConfig{
+			SearchAlgorithm:  int(this.config.searchAlgorithm),
+			LevelMultiplier:  this.config.levelMultiplier,
+			Ef:               this.config.ef,
+			EfConstruction:   this.config.efConstruction,
+			M:                this.config.m,
+			MMax:             this.config.mMax,
+			MMax0:            this.config.mMax0,
+			ExtendCandidates: this.config.heuristicExtendCandidates,
+			KeepPruned:       this.config.heuristicKeepPruned,
+		},
+	}
+	if ep := (*hnswVertex)(atomic.LoadPointer(&this.entrypoint)); ep != nil {
+		d.HasEntry = true
+		d.Entry = ep.id
+		d.EntryDeleted = ep.isDeleted()
+		d.EntryStored = this.verifStored(ep)
+		d.EntryLevel = ep.level
+	}
+	for i := range this.vertices {
+		this.verticesMu[i].RLock()
+		shard := make([]*hnswVertex, 0, len(this.vertices[i]))
+		for _, v := range this.vertices[i] {
+			shard = append(shard, v)
+		}
+		this.verticesMu[i].RUnlock()
+		for _, v := range shard {
+			vv := VerifVertex{
+				Id:       v.id,
+				Level:    v.level,
+				Vector:   append([]float32(nil), v.vector...),
+				Metadata: map[string]string{},
+				NilMeta:  v.metadata == nil,
+				Deleted:  v.isDeleted(),
+				Edges:    make([][]VerifEdge, len(v.edges)),
+			}
+			for k, val := range v.metadata {
+				vv.Metadata[k] = val
+			}
+			for l := range v.edges {
+				v.edgeMutexes[l].RLock()
+				for n, dist := range v.edges[l] {
+					vv.Edges[l] = append(vv.Edges[l], VerifEdge{To: n.id, Distance: dist, ToDeleted: n.isDeleted()})
+				}
+				nbs := make([]*hnswVertex, 0, len(v.edges[l]))
+				for n := range v.edges[l] {
+					nbs = append(nbs, n)
+				}
+				v.edgeMutexes[l].RUnlock()
+				stored := map[uuid.UUID]bool{}
+				for _, n := range nbs {
+					stored[n.id] = this.verifStored(n)
+				}
+				for j := range vv.Edges[l] {
+					vv.Edges[l][j].ToStored = stored[vv.Edges[l][j].To]
+				}
+				es := vv.Edges[l]
+				sort.Slice(es, func(a, b int) bool { return bytes.Compare(es[a].To[:], es[b].To[:]) < 0 })
+			}
+			d.Vertices = append(d.Vertices, vv)
+		}
+	}
+	sort.Slice(d.Vertices, func(a, b int) bool { return bytes.Compare(d.Vertices[a].Id[:], d.Vertices[b].Id[:]) < 0 })
+	return d
+}
+
+// VerifVertexMeta exposes what GetVertex returns to callers outside the package.
+func (this *Hnsw) VerifVertexMeta(id uuid.UUID) (Metadata, int, error) {
+	v, err := this.GetVertex(id)
+	if err != nil {
+		return nil, 0, err
+	}
+	return v.Metadata(), v.Level(), nil
+}
